@@ -4,6 +4,7 @@ go 1.14
 
 require (
 	github.com/anishathalye/porcupine v1.3.0
+	github.com/golang/protobuf v1.5.2
 	github.com/kubewharf/kubebrain v0.0.0
 	github.com/kubewharf/kubebrain-client v0.2.1
 	github.com/tikv/client-go/v2 v2.0.1
